@@ -3,4 +3,5 @@ pub mod c04;
 pub mod c05;
 pub mod c06;
 pub mod c14;
+pub mod c15;
 pub mod misc;
